@@ -90,7 +90,8 @@ class Gen(object):
         if r < 0.3:
             return self.name_target()
         if r < 0.45:
-            return self.rng.choice(("NS.a", "NS.sub.b", "NS.sub.sub.c", "FN(1, 2).z", "FN().w", "FN(IDX, 'x').q"))
+            return self.rng.choice(("NS.a", "NS.sub.b", "NS.sub.sub.c", "FN(1, 2).z", "FN().w", "FN(IDX, 'x').q",
+                                    "LFN(1).y", "NS.meth(2, IDX).m", "LFN().sub.t"))
         if r < 0.75:
             return self.rng.choice(("ARR[0]", "ARR[-1]", "ARR[IDX]", "DCT['k']", "DCT[KEY]", "DCT[None]",
                                     "NS.__dict__['d']", "DCT[3]", "FN(1).__dict__[KEY]"))
@@ -381,7 +382,7 @@ class Gen(object):
             pass
         if kind in ("gen", "agen"):
             self.emit(1, "if False: yield")
-        extra = []
+        extra = ["    LFN = FN"]
         if self.globals_decl:
             extra.append("    global " + ", ".join(self.globals_decl))
         if self.cellvars:
